@@ -10,6 +10,7 @@ import (
 	"time"
 
 	v1 "k8s.io/api/core/v1"
+	resourceapi "k8s.io/api/resource/v1"
 	metav1 "k8s.io/apimachinery/pkg/apis/meta/v1"
 
 	schedulingv1alpha2 "github.com/NVIDIA/KAI-scheduler/pkg/apis/scheduling/v1alpha2"
@@ -126,7 +127,9 @@ type Snapshot struct {
 	ByName    map[string]*PodView
 	Nodes     map[string]*v1.Node
 	BRs       []*schedulingv1alpha2.BindRequest
-	LastStart map[string]time.Time // workload -> kai.scheduler/last-start-timestamp of its PodGroup
+	Claims    map[string]*resourceapi.ResourceClaim // DRA claims by name
+	Slices    map[string]int                        // DRA devices per driver/pool
+	LastStart map[string]time.Time                  // workload -> kai.scheduler/last-start-timestamp of its PodGroup
 	Taken     time.Time
 }
 
@@ -141,6 +144,16 @@ func TakeSnapshot(s *Store) *Snapshot {
 	}
 	for _, n := range s.NodesList() {
 		snap.Nodes[n.Name] = n
+	}
+	snap.Claims = map[string]*resourceapi.ResourceClaim{}
+	snap.Slices = map[string]int{}
+	if l, err := s.Kube.ResourceV1().ResourceSlices().List(context.Background(), metav1.ListOptions{}); err == nil {
+		for i := range l.Items {
+			snap.Slices[l.Items[i].Spec.Driver+"/"+l.Items[i].Spec.Pool.Name] += len(l.Items[i].Spec.Devices)
+		}
+	}
+	for _, rc := range s.Claims() {
+		snap.Claims[rc.Name] = rc
 	}
 	brs := map[string]*schedulingv1alpha2.BindRequest{}
 	snap.BRs = s.BindRequests()
